@@ -68,6 +68,83 @@ fn run_cli_env(bin: &str, args: &[String], stdin: Option<&[u8]>, env: &[(&str, O
     Ok(Out { code: o.status.code(), stdout: String::from_utf8_lossy(&o.stdout).to_string(), stderr: String::from_utf8_lossy(&o.stderr).to_string() })
 }
 
+/// Numeric options x channels: every threshold pair of a small grid, in three spellings of the number, on all four
+/// channels, with inputs whose longest test case is exactly / just above / just below a minimal qualifying repetition.
+fn thresholds_on_channels(ctx: &Ctx, bin: &str, dir: &str, thorough: bool) {
+    let run = &ctx.run;
+    let s = |v: &[&str]| v.iter().map(|x| x.to_string()).collect::<Vec<String>>();
+    let inputs: Vec<Vec<String>> = vec![s(&["aaa", "b"]), s(&["aa", "b"]), s(&["aaaa", "b"]), s(&["abab", "c"]), s(&["ababab"]), s(&["abcabc", "abc"]), s(&["aaaaaaaa", "abababab", "xyzxyz"])];
+    let grid: Vec<(u32, u32)> = if thorough { (1..=4).flat_map(|r| (1..=4).map(move |l| (r, l))).collect() } else { vec![(1, 1), (2, 1), (1, 2), (2, 2), (3, 1), (1, 3)] };
+    let spell = |n: u32, k: usize| -> String {
+        match k % 3 {
+            0 => n.to_string(),
+            1 => format!("+{n}"),
+            _ => format!("00{n}"),
+        }
+    };
+    let flagsets: Vec<(Vec<&str>, u32)> = vec![(vec!["-r"], R), (vec!["-r", "-x"], R | X), (vec!["--repetitions", "-i"], R | I), (vec![], 0)];
+    let jobs: Vec<(usize, usize, usize)> = (0..inputs.len()).flat_map(|i| (0..grid.len()).flat_map(move |g| (0..4).map(move |f| (i, g, f)))).collect();
+    let n = AtomicU64::new(0);
+    par_for(jobs.len(), |j| {
+        let (i, g, f) = jobs[j];
+        let tcs = &inputs[i];
+        let (r, l) = grid[g];
+        let cfg = Cfg::with(flagsets[f].1, r, l);
+        let Ok(expect) = cfg.build(tcs) else { return };
+        for (c, ch) in [Channel::Args, Channel::File, Channel::Stdin, Channel::FileFromStdin].iter().enumerate() {
+            let mut args: Vec<String> = flagsets[f].0.iter().map(|x| x.to_string()).collect();
+            // two option syntaxes: `--opt value` and `--opt=value`
+            if (j + c) % 2 == 0 {
+                args.push("--min-repetitions".into());
+                args.push(spell(r, j + c));
+                args.push(format!("--min-substring-length={}", spell(l, j + c + 1)));
+            } else {
+                args.push(format!("--min-repetitions={}", spell(r, j + c)));
+                args.push("--min-substring-length".into());
+                args.push(spell(l, j + c + 1));
+            }
+            let path = format!("{dir}/thr_{j}_{c}.txt");
+            let crlf = (j + c) % 4 == 3;
+            let stdin: Option<Vec<u8>> = match ch {
+                Channel::Args => {
+                    args.push("--".into());
+                    args.extend(tcs.iter().cloned());
+                    None
+                }
+                Channel::File => {
+                    std::fs::write(&path, file_bytes(tcs, crlf, true)).unwrap();
+                    args.extend(["-f".to_string(), path.clone()]);
+                    None
+                }
+                Channel::Stdin => {
+                    args.push("-".into());
+                    Some(file_bytes(tcs, crlf, j % 2 == 0))
+                }
+                Channel::FileFromStdin => {
+                    std::fs::write(&path, file_bytes(tcs, crlf, true)).unwrap();
+                    args.extend(["-f".to_string(), "-".to_string()]);
+                    Some(format!("{path}\n").into_bytes())
+                }
+            };
+            run.eval();
+            n.fetch_add(1, Ordering::Relaxed);
+            run.mark_nontrivial(hash_case(tcs, &cfg) ^ (c as u64 * 131 + 17));
+            match run_cli(bin, &args, stdin.as_deref()) {
+                Err(e) => run.machinery_error(e),
+                Ok(o) => {
+                    if o.code != Some(0) || o.stdout != format!("{expect}\n") || !o.stderr.is_empty() {
+                        run.violation(viol("C12", "cli", format!("cli-differs-from-library thresholds channel={:?}", ch), tcs, &cfg, &o.stdout,
+                            json!({"args": args, "channel": format!("{:?}", ch), "exit": o.code, "stderr": o.stderr.chars().take(300).collect::<String>(), "expected_stdout": format!("{expect}\n")})));
+                    }
+                }
+            }
+            let _ = std::fs::remove_file(&path);
+        }
+    });
+    run.space(json!({"engine": "numeric options x channels", "inputs": inputs.len(), "thresholds": format!("{:?}", grid), "number_spellings": ["n", "+n", "00n"], "option_syntax": ["--opt value", "--opt=value"],
+        "flag_sets": ["-r", "-r -x", "--repetitions -i", "(none: thresholds without -r)"], "channels": 4, "runs": n.load(Ordering::Relaxed)}));
+}
+
 /// Process environment, option placement and the kind of file descriptor behind stdin must not matter.
 fn variants(ctx: &Ctx, bin: &str, dir: &str, thorough: bool) {
     let run = &ctx.run;
@@ -372,6 +449,7 @@ pub fn run(ctx: &Ctx) {
     ctx.run.space(json!({"channels": "arguments, -f file, - (stdin), -f - (file name on stdin)", "flag_subsets": feat_subsets.len(), "bound": if thorough {"<=2 of 16 flags"} else {"<=1 of 16 flags"},
         "inputs": feat_inputs.len(), "universe": "content features at line boundaries: BOM, space, tab, VT, FF, NEL, NBSP, U+2028, ZWSP, -, --, #, backslash, quotes, ESC, combining acute, DEL, @, ~ -- at the start of the first / a later line, the end of the first / last line, as a line of its own, and doubled around a letter", "endings": "LF/CRLF x final newline/none"}));
     variants(ctx, &bin, &dir, thorough);
+    thresholds_on_channels(ctx, &bin, &dir, thorough);
     // error inputs
     let empty = format!("{dir}/empty.txt");
     std::fs::write(&empty, b"").unwrap();
